@@ -622,6 +622,33 @@ func sandwichSig(own, other hotstuff.QuorumSignature) hotstuff.QuorumSignature {
 	return nil
 }
 
+// repeatOtherSig: somebody's genuine single signature k times, then one's own: [x, x, ..., own].
+func repeatOtherSig(own, other hotstuff.QuorumSignature, k int) hotstuff.QuorumSignature {
+	switch o := own.(type) {
+	case crypto.Multi[*crypto.EDDSASignature]:
+		x, ok := other.(crypto.Multi[*crypto.EDDSASignature])
+		if !ok || len(o) != 1 || len(x) != 1 {
+			return nil
+		}
+		out := crypto.Multi[*crypto.EDDSASignature]{}
+		for i := 0; i < k; i++ {
+			out = append(out, x[0])
+		}
+		return append(out, o[0])
+	case crypto.Multi[*crypto.ECDSASignature]:
+		x, ok := other.(crypto.Multi[*crypto.ECDSASignature])
+		if !ok || len(o) != 1 || len(x) != 1 {
+			return nil
+		}
+		out := crypto.Multi[*crypto.ECDSASignature]{}
+		for i := 0; i < k; i++ {
+			out = append(out, x[0])
+		}
+		return append(out, o[0])
+	}
+	return nil
+}
+
 // retypeSig keeps signers and bytes entry by entry but presents them as a multi-signature of the other scheme.
 func retypeSig(sig hotstuff.QuorumSignature) hotstuff.QuorumSignature {
 	switch s := sig.(type) {
@@ -657,6 +684,62 @@ func truncSig(sig hotstuff.QuorumSignature, drop int) hotstuff.QuorumSignature {
 			return nil
 		}
 		return s[:len(s)-drop]
+	}
+	return nil
+}
+
+// oneValidSig: own's signature bytes under every name in others, plus the genuine entry at the end (where 0), the
+// beginning (1) or in the middle (2).
+func oneValidSig(scheme string, own hotstuff.QuorumSignature, self hotstuff.ID, others []hotstuff.ID, where int) hotstuff.QuorumSignature {
+	pos := len(others)
+	switch where {
+	case 1:
+		pos = 0
+	case 2:
+		pos = len(others) / 2
+	}
+	switch s := own.(type) {
+	case crypto.Multi[*crypto.EDDSASignature]:
+		if len(s) != 1 {
+			return nil
+		}
+		out := make(crypto.Multi[*crypto.EDDSASignature], 0, len(others)+1)
+		for i, id := range others {
+			if i == pos {
+				out = append(out, s[0])
+			}
+			out = append(out, crypto.RestoreEDDSASignature(s[0].ToBytes(), id))
+		}
+		if pos >= len(others) {
+			out = append(out, s[0])
+		}
+		return out
+	case crypto.Multi[*crypto.ECDSASignature]:
+		if len(s) != 1 {
+			return nil
+		}
+		out := make(crypto.Multi[*crypto.ECDSASignature], 0, len(others)+1)
+		for i, id := range others {
+			if i == pos {
+				out = append(out, s[0])
+			}
+			out = append(out, crypto.RestoreECDSASignature(s[0].ToBytes(), id))
+		}
+		if pos >= len(others) {
+			out = append(out, s[0])
+		}
+		return out
+	case *crypto.BLS12AggregateSignature:
+		var bf crypto.Bitfield
+		bf.Add(self)
+		for _, id := range others {
+			bf.Add(id)
+		}
+		r, err := crypto.RestoreBLS12AggregateSignature(s.ToBytes(), bf)
+		if err != nil {
+			return nil
+		}
+		return r
 	}
 	return nil
 }
@@ -720,6 +803,14 @@ func (a *adversary) forgeQC(nd *Node, kind string, view hotstuff.View) (hotstuff
 			v := a.votes[len(a.votes)-1]
 			if rb := w.reg.get(v.BlockHash()); rb != nil && v.Signer() != nd.id {
 				if mine := a.ownSig(nd, rb.ToBytes()); mine != nil {
+					if mix(w.plan.Inner, 0x72707473, a.ctr)%2 == 0 {
+						// the genuine vote repeated until the entries make a quorum, then one's own: for the replica that
+						// cast (and remembers) that vote every entry is a signature it has seen verified
+						if rs := repeatOtherSig(mine, v.Signature(), q-1); rs != nil {
+							a.fired("dupsigner-genuine-vote-repeated")
+							return hotstuff.NewQuorumCert(rs, rb.View(), rb.Hash()), true
+						}
+					}
 					if rs := sandwichSig(mine, v.Signature()); rs != nil {
 						return hotstuff.NewQuorumCert(rs, rb.View(), rb.Hash()), true
 					}
@@ -743,6 +834,27 @@ func (a *adversary) forgeQC(nd *Node, kind string, view hotstuff.View) (hotstuff
 			return hotstuff.QuorumCert{}, false
 		}
 		return hotstuff.NewQuorumCert(sig, 0, hotstuff.GetGenesis().Hash()), true
+	case "onevalid":
+		// a quorum of distinct signers of which exactly one - the Byzantine replica - really signed; the others carry its
+		// signature bytes under their names. The genuine entry comes last, first or in the middle
+		b := a.craftBlock(nd, view)
+		if b == nil {
+			return hotstuff.QuorumCert{}, false
+		}
+		own := a.ownSig(nd, b.ToBytes())
+		if own == nil {
+			return hotstuff.QuorumCert{}, false
+		}
+		var ids []hotstuff.ID
+		for _, id := range a.others(nd) {
+			if len(ids) < q-1 {
+				ids = append(ids, id)
+			}
+		}
+		if sig := oneValidSig(w.plan.Crypto, own, nd.id, ids, a.intn(3)); sig != nil {
+			return hotstuff.NewQuorumCert(sig, b.View(), b.Hash()), true
+		}
+		return hotstuff.QuorumCert{}, false
 	case "zeroview":
 		// an unsigned certificate that claims view 0 (the genesis certificate's shape) for some other block
 		b := a.craftBlock(nd, view)
@@ -848,7 +960,7 @@ func (a *adversary) forgeTC(nd *Node) hotstuff.TimeoutCert {
 	return hotstuff.NewTimeoutCert(a.ownSig(nd, v.ToBytes()), v)
 }
 
-var qcForgeries = []string{"dupsigner", "relabel", "subquorum", "wrongblock", "genesisview", "swapids", "nosig", "zeroview", "genesissig"}
+var qcForgeries = []string{"dupsigner", "relabel", "subquorum", "wrongblock", "genesisview", "swapids", "nosig", "zeroview", "genesissig", "onevalid"}
 
 func (a *adversary) pickForgery(acts []string) string {
 	var have []string
@@ -1267,6 +1379,45 @@ func (a *adversary) swapInAggregate(nd *Node, agg hotstuff.AggregateQC) (hotstuf
 	}
 	qcs[victim] = hotstuff.NewQuorumCert(bad, old.View(), old.BlockHash())
 	return hotstuff.NewAggregateQC(qcs, agg.Sig(), agg.View()), true
+}
+
+// loneAggregate: an aggregate certificate for the Byzantine replica's current view that only it signed. The bit field
+// (or the entry list) names it and quorum-1 others - replicas outside the configuration, or configured ones - and the
+// certificate lists a QC of its choosing (the oldest genuine one it knows, or genesis) for each of them.
+func (a *adversary) loneAggregate(nd *Node) (hotstuff.AggregateQC, bool) {
+	w := a.w
+	qc := hotstuff.NewQuorumCert(nil, 0, hotstuff.GetGenesis().Hash())
+	if len(a.qcs) > 0 && a.chance(0.5) {
+		qc = a.qcs[0]
+	}
+	view := nd.states.View()
+	if a.chance(0.3) && view > 1 {
+		view--
+	}
+	own := a.ownSig(nd, hotstuff.TimeoutMsg{ID: nd.id, View: view, SyncInfo: hotstuff.NewSyncInfoWith(qc)}.ToBytes())
+	if own == nil {
+		return hotstuff.AggregateQC{}, false
+	}
+	var ids []hotstuff.ID
+	outside := a.chance(0.6)
+	for k := 1; len(ids) < w.orc.q-1 && k <= w.plan.N+w.orc.q; k++ {
+		id := hotstuff.ID(k)
+		if outside {
+			id = hotstuff.ID(w.plan.N + k)
+		}
+		if id != nd.id {
+			ids = append(ids, id)
+		}
+	}
+	sig := oneValidSig(w.plan.Crypto, own, nd.id, ids, 1+a.intn(2))
+	if sig == nil {
+		return hotstuff.AggregateQC{}, false
+	}
+	qcs := map[hotstuff.ID]hotstuff.QuorumCert{nd.id: qc}
+	for _, id := range ids {
+		qcs[id] = qc
+	}
+	return hotstuff.NewAggregateQC(qcs, sig, view), true
 }
 
 // attestInAggregate rebuilds an aggregate certificate so that the Byzantine replica's own entry attests qc.
@@ -1713,6 +1864,19 @@ func (a *adversary) onNewView(nd *Node, to hotstuff.ID, si *hotstuff.SyncInfo) b
 				a.sendTo(nd, id, "newview", hotstuff.NewViewMsg{ID: nd.id, SyncInfo: fsi, FromNetwork: true})
 			}
 			a.fired("aggtwin")
+			return true
+		}
+	}
+	if has(acts, "agglone") && nd.cfg.HasAggregateQC() && a.chance(0.7) {
+		if agg, ok := a.loneAggregate(nd); ok {
+			fsi := hotstuff.NewSyncInfoWith(agg)
+			if len(a.tcs) > 0 && a.chance(0.5) {
+				fsi.SetTC(a.tcs[len(a.tcs)-1])
+			}
+			for _, id := range a.others(nd) {
+				a.sendTo(nd, id, "newview", hotstuff.NewViewMsg{ID: nd.id, SyncInfo: fsi, FromNetwork: true})
+			}
+			a.fired("agglone")
 			return true
 		}
 	}
